@@ -33,7 +33,7 @@ WEIGHTS = {
 
 def cases(tier, seed):
     rng = random.Random(f"C20/{seed}")
-    nmax, count, nb = (7, 2000, 700) if tier == "quick" else (8, 16000, 6000)
+    nmax, count, nb = (7, 8000, 2500) if tier == "quick" else (8, 40000, 12000)
     cl = [("gadget", 5), ("inputs", 3), ("rand", 3), ("overlap-maa", 0.5), ("dense-neg", 1)]
     nets = gen.corpus() + [gen.draw(rng, cl, nmax) for _ in range(count)]
     kinds = list(WEIGHTS)
